@@ -99,6 +99,31 @@ Theorem C17_no_listener_when_disabled : forall u, start_listener true u = None.
 Proof. exact no_listener_when_disabled. Qed.
 Print Assumptions C17_no_listener_when_disabled.
 
+(* the deadline of the handshake's register phase is the REGISTRATION time-out: a RegisterPlugin call arriving
+   at_ms after the runtime started serving the connection is refused as timed out iff t_reg <= at_ms, otherwise
+   treated like an immediate one; the value of the request time-out does not enter *)
+Theorem C17_register_deadline_is_registration_timeout : forall t_reg t_req at_ms name idx cfg sy,
+  (t_reg <= at_ms -> handle (timed_conn t_reg t_req at_ms name idx cfg sy) = ORegTimeout) /\
+  (at_ms < t_reg -> handle (timed_conn t_reg t_req at_ms name idx cfg sy)
+                    = handle {| c_reg := RegNow name idx; c_cfg := cfg; c_sync := sy |}) /\
+  (forall t_req', timed_conn t_reg t_req at_ms name idx cfg sy = timed_conn t_reg t_req' at_ms name idx cfg sy).
+Proof. exact register_deadline. Qed.
+Print Assumptions C17_register_deadline_is_registration_timeout.
+
+(* late for the registration time-out but early for a longer request time-out: never activated; late for a short
+   request time-out but early for the registration time-out: activated if otherwise well formed *)
+Theorem C17_register_deadline_cases : forall t_reg t_req at_ms name idx cfg sy,
+  (t_reg <= at_ms < t_req -> ~ exists n i e, handle (timed_conn t_reg t_req at_ms name idx cfg sy) = OGood n i e) /\
+  (t_req <= at_ms < t_reg -> well_formed {| c_reg := RegNow name idx; c_cfg := cfg; c_sync := sy |} ->
+     exists n i e, handle (timed_conn t_reg t_req at_ms name idx cfg sy) = OGood n i e).
+Proof. exact register_deadline_cases. Qed.
+Print Assumptions C17_register_deadline_cases.
+
+Example C17_example_deadline :
+  handle (timed_conn 300 6000 1500 "late" "10" (CfgReply 0) SyncOk) = ORegTimeout /\
+  handle (timed_conn 4000 500 1500 "slow" "10" (CfgReply 0) SyncOk) = OGood "slow" "10" 8191.
+Proof. split; vm_compute; reflexivity. Qed.
+
 (* ---- non-vacuity ---- *)
 Definition ex_good : conn := {| c_reg := RegNow "logger" "05"; c_cfg := CfgReply 4097; c_sync := SyncOk |}.
 Definition ex_bad : list conn :=
